@@ -32,11 +32,17 @@ ASSUMPTIONS = []
 
 TR = 'chainables.transform'
 ORCH = 'chainables.orchestrate'
+CW = 'chainables.courier_worker'
 
 
 def run(ctx: Ctx):
-  for r in (r1, r2, r3, r4, r5):
+  for r in (r1, r2, r3, r4, r5, r6, r7):
     ctx.guard(r)
+  from mlmverif.props import c03
+  ctx.include('R-C16-8', 'shard states arrive as a one-shot stream: every stage'
+              ' that merges them sees them all (R-C03-6 single-pass discipline)',
+              c03.r6, ('chainables.transform', 'chainables.orchestrate'), 'R-C03-6', 8,
+              min_instances=8)
 
 
 def r1(ctx: Ctx):
@@ -313,11 +319,109 @@ def r5(ctx: Ctx):
   ctx.floor(rule, 1)
 
 
+def r6(ctx: Ctx):
+  rule = 'R-C16-6'
+  ctx.rule(rule, '"the same multiset of output batches": after WorkerPool.iterate'
+           ' has stopped its event loop (no task can deliver any more) the'
+           ' output queue is drained once more before the generator ends —'
+           ' batches that arrived after the last drain of the scheduling loop'
+           ' would otherwise be dropped')
+  fi = ctx.repo.func(CW, 'WorkerPool.iterate')
+  g = cfgm.cfg_of(fi.node)
+  stops = [n for n in g.nodes if 'event_loop.stop' in (unparse(n.ast) if n.ast is not None else '')
+           and n.kind == 'stmt']
+  if not stops:
+    raise AnalysisError(f'{rule}: the event loop stop was not found in WorkerPool.iterate')
+  q = None
+  for x in walk_no_nested(fi.node):
+    if isinstance(x, ast.Assign) and isinstance(x.targets[0], ast.Name) and isinstance(x.value, ast.Call) and (
+        unparse(x.value.func) in ('queue.SimpleQueue', 'queue.Queue')) and 'output' in x.targets[0].id:
+      q = x.targets[0].id
+  if q is None:
+    raise AnalysisError(f'{rule}: the output queue was not found')
+  drain_tests = {id(w_.test) for w_ in ast.walk(fi.node) if isinstance(w_, ast.While)
+                 and f'{q}.empty()' in unparse(w_.test)
+                 and any(isinstance(y, ast.Yield) and y.value is not None and f'{q}.get' in unparse(y.value)
+                         for b_ in w_.body for y in ast.walk(b_))}
+  drain = lambda n: n.kind == 'cond' and id(n.ast) in drain_tests
+
+  def edge_ok(p_, q_, lab):
+    if lab in ('exc', 'close'):
+      return False
+    return True
+
+  n = 0
+  for st in stops:
+    n += 1
+    w = g.must_pass(st, [g.exit_ret, g.exit_exc], drain, edge_ok)
+    if w is None:
+      ctx.ok(rule, fi, f'`{st.text()[:50]}` is followed by a drain of {q} on every path', st.ast)
+    else:
+      ctx.fail(rule, fi, f'WorkerPool.iterate: drain {q} after stopping the event loop',
+               f'after the event loop is stopped the generator can finish without'
+               f' yielding what is left in `{q}`: batches enqueued by the last task'
+               ' after the scheduling loop\'s own drain are never delivered',
+               node=st.ast, witness=w[-8:])
+  ctx.floor(rule, 1, n)
+
+
+def r7(ctx: Ctx):
+  rule = 'R-C16-7'
+  ctx.rule(rule, 'master and workers build the SAME pipeline: every call of the'
+           ' pipeline definition inside sharded_pipelines_as_iterator (the'
+           ' traced per-shard tasks and the master-side merge/result function)'
+           ' forwards *pipeline_args and **pipeline_kwargs and num_shards — a'
+           ' master built with default kwargs filters out or mis-finalises'
+           ' the shard states of a configured pipeline')
+  fi = ctx.repo.func(ORCH, 'sharded_pipelines_as_iterator')
+  a = fi.node.args
+  if a.vararg is None or a.kwarg is None:
+    raise AnalysisError(f'{rule}: sharded_pipelines_as_iterator has no *args/**kwargs')
+  va, kw = a.vararg.arg, a.kwarg.arg
+  dp = fi.params()[1] if len(fi.params()) > 1 else None
+  calls = []
+  for c in ast.walk(fi.node):
+    if not isinstance(c, ast.Call):
+      continue
+    f = c.func
+    direct = isinstance(f, ast.Name) and f.id == dp
+    traced = isinstance(f, ast.Call) and f.args and isinstance(f.args[0], ast.Name) and f.args[0].id == dp and (
+        unparse(f.func).endswith('trace'))
+    if direct or traced:
+      calls.append(c)
+  if len(calls) < 2:
+    raise AnalysisError(f'{rule}: expected the worker-side and the master-side call of `{dp}`, found {len(calls)}')
+  n = 0
+  for c in calls:
+    n += 1
+    has_va = any(isinstance(x, ast.Starred) and unparse(x.value) == va for x in c.args)
+    has_kw = any(k.arg is None and unparse(k.value) == kw for k in c.keywords)
+    ns = kwarg(c, 'num_shards')
+    if has_va and has_kw and ns is not None and unparse(ns) == 'num_shards':
+      ctx.ok(rule, fi, f'`{unparse(c.func)[:40]}(*{va}, ..., **{kw})`', c)
+    else:
+      miss = [t for t, ok_ in ((f'*{va}', has_va), (f'**{kw}', has_kw), ('num_shards', ns is not None)) if not ok_]
+      ctx.fail(rule, fi, f'sharded_pipelines_as_iterator: {dp}(*{va}, num_shards=num_shards, **{kw}) at every site',
+               f'`{unparse(c)[:70]}` does not forward {miss}: master and workers run'
+               ' differently configured pipelines, so shard states are dropped by'
+               ' the merge or finalised with the wrong configuration', node=c)
+  ctx.floor(rule, 2, n)
+
+
 from mlmverif.selfcheck import B, OK  # noqa: E402
 
 _T = 'chainables/transform.py'
 _O = 'chainables/orchestrate.py'
 VARIANTS = [
+    B('final-drain-removed', 'chainables/courier_worker.py',
+      '      event_loop.call_soon_threadsafe(event_loop.stop)\n      while not output_queue.empty():\n        batch_cnt += 1\n        yield output_queue.get()\n',
+      '      event_loop.call_soon_threadsafe(event_loop.stop)\n', 'R-C16-6'),
+    B('master-pipeline-without-kwargs', 'chainables/orchestrate.py',
+      '        shard_index=0,\n        num_shards=num_shards,\n        **pipeline_kwargs,\n',
+      '        shard_index=0,\n        num_shards=num_shards,\n', 'R-C16-7'),
+    B('chained-merge-streams-states', _T,
+      '    states = list(states)\n    if strict_states_cnt and len(states) != strict_states_cnt:',
+      '    if strict_states_cnt and False:', 'R-C16-8'),
     B('merge-keeps-only-first-state-keys', _T,
       '          if key in states_by_fn:\n            fn_state = agg_fn.merge_states([states_by_fn[key], fn_state])\n          states_by_fn[key] = fn_state',
       '          if not states_cnt:\n            states_by_fn[key] = fn_state\n          elif key in states_by_fn:\n            states_by_fn[key] = agg_fn.merge_states(\n                [states_by_fn[key], fn_state]\n            )',
